@@ -403,6 +403,8 @@ pub fn any_msg_strategy() -> impl Strategy<Value = M> {
         1 => (a(), proptest::collection::vec(byte_strategy(), 0..=20)).prop_map(|(off, data)| M::Data { off, data }),
         2 => (a(), 7u8..=255, proptest::collection::vec(byte_strategy(), 0..=5)).prop_map(|(addr, ty, data)| M::Unknown { addr, ty, data }),
         1 => (a(), 1u8..=6, proptest::collection::vec(byte_strategy(), 2..=4)).prop_map(|(addr, ty, data)| M::Unknown { addr, ty, data }),
+        // maximal and near-maximal frames (unknown type: the serial bus does not pace them)
+        1 => (a(), 7u8..=255, proptest::sample::select(vec![253usize, 254, 255])).prop_map(|(addr, ty, n)| M::Unknown { addr, ty, data: vec![0xC3; n] }),
     ]
 }
 
